@@ -50,6 +50,8 @@ type c18Entry struct {
 	Backup     string   `json:"backup,omitempty"`
 	Refs       bool     `json:"referrers,omitempty"`
 	DTags      bool     `json:"digestTags,omitempty"`
+	Force      bool     `json:"forceRecursive,omitempty"`
+	Hoisted    bool     `json:"options_written_in_defaults,omitempty"` // mediaTypes, backup, referrers, digestTags, forceRecursive come from the defaults section
 }
 
 func (en c18Entry) yaml() string {
@@ -76,18 +78,35 @@ func (en c18Entry) yaml() string {
 	if en.Platform != "" {
 		fmt.Fprintf(&sb, "    platform: %s\n", en.Platform)
 	}
-	list("mediaTypes", en.Media, "    ")
+	if !en.Hoisted {
+		sb.WriteString(en.optionsYAML("    "))
+	}
+	return sb.String()
+}
+
+// optionsYAML renders the options that may also be given once in the defaults section.
+func (en c18Entry) optionsYAML(indent string) string {
+	var sb strings.Builder
+	if len(en.Media) > 0 {
+		fmt.Fprintf(&sb, "%smediaTypes:\n", indent)
+		for _, x := range en.Media {
+			fmt.Fprintf(&sb, "%s  - %q\n", indent, x)
+		}
+	}
 	if en.MediaEmpty && len(en.Media) == 0 {
-		sb.WriteString("    mediaTypes: []\n")
+		fmt.Fprintf(&sb, "%smediaTypes: []\n", indent)
 	}
 	if en.Backup != "" {
-		fmt.Fprintf(&sb, "    backup: %q\n", en.Backup)
+		fmt.Fprintf(&sb, "%sbackup: %q\n", indent, en.Backup)
 	}
 	if en.Refs {
-		sb.WriteString("    referrers: true\n")
+		fmt.Fprintf(&sb, "%sreferrers: true\n", indent)
 	}
 	if en.DTags {
-		sb.WriteString("    digestTags: true\n")
+		fmt.Fprintf(&sb, "%sdigestTags: true\n", indent)
+	}
+	if en.Force {
+		fmt.Fprintf(&sb, "%sforceRecursive: true\n", indent)
 	}
 	return sb.String()
 }
@@ -224,6 +243,7 @@ func runC18(e *core.Env) {
 		}
 		en.Refs = e.Choose("gen", 3, "refs") == 2
 		en.DTags = e.Choose("gen", 4, "dtags") == 3
+		en.Force = e.Choose("gen", 5, "force") == 4
 		return en
 	}
 	switch e.Choose("gen", 4, "layout") {
@@ -253,6 +273,20 @@ func runC18(e *core.Env) {
 		if src.K.RateRemain0 < rateMin {
 			e.Probe("source-rate-limit-below-minimum-at-start")
 		}
+	}
+	// the options of the first entry may be written once in the defaults section instead: every entry then inherits them
+	if e.Choose("gen", 4, "hoist") == 3 {
+		first := entries[0]
+		if strings.HasPrefix(first.Backup, "tgt.test/backups/") {
+			first.Backup = "old-{{.Ref.Tag}}" // (a full backup reference names one repository; as a default only the tag form makes sense)
+		}
+		for i := range entries {
+			entries[i].Media, entries[i].MediaEmpty, entries[i].Backup = first.Media, first.MediaEmpty, first.Backup
+			entries[i].Refs, entries[i].DTags, entries[i].Force = first.Refs, first.DTags, first.Force
+			entries[i].Hoisted = true
+		}
+		cfg.WriteString(first.optionsYAML("  "))
+		e.Probe("options-in-defaults-section")
 	}
 	fmt.Fprintf(&cfg, "  parallel: %d\nsync:\n", parallel)
 	for _, en := range entries {
@@ -461,6 +495,10 @@ func runC18(e *core.Env) {
 					return pre.tags[x.tgtRepo+":"+x.tag] == d
 				}
 				return pm[x.tgtRepo+"@"+d]
+			}
+			if x.en.Force {
+				wo.Trusted = nil // a recursive copy completes what the target already held
+				e.Probe("force-recursive-entry")
 			}
 			needs, _, _ := oracle.Closure(oracle.RegStore{Reg: src, Repo: x.srcRepo}, x.want, wo)
 			if miss := oracle.CheckPresent(oracle.RegStore{Reg: src, Repo: x.srcRepo}, oracle.RegStore{Reg: tgt, Repo: x.tgtRepo}, needs); len(miss) > 0 {
